@@ -410,7 +410,7 @@ func (e *Env) selectField(b tv, name string) tv {
 				}
 				return tv{e.eng.syncMapV(spec, embAddr(owner, idx, ot)), nil}
 			}
-			if isPlainStruct(f.Type()) {
+			if isPlainStruct(f.Type()) || isOpaqueStruct(f.Type()) {
 				// keep as pointer to the embedded struct
 				cur, curT = embAddr(owner, idx, ot), types.NewPointer(f.Type())
 			} else {
@@ -461,6 +461,15 @@ func coerce(a, b tv) (tv, tv) {
 
 func valEq(a, b tv) *Term {
 	a, b = coerce(a, b)
+	if _, ok := a.V.(IfaceV); ok {
+		if bt, ok2 := b.V.(*Term); ok2 && b.T != nil && !types.IsInterface(b.T) && payloadIsValue(b.T) {
+			b = tv{IfaceV{tagTerm(b.T), bt}, a.T}
+		}
+	} else if _, ok := b.V.(IfaceV); ok {
+		if at, ok2 := a.V.(*Term); ok2 && a.T != nil && !types.IsInterface(a.T) && payloadIsValue(a.T) {
+			a = tv{IfaceV{tagTerm(a.T), at}, b.T}
+		}
+	}
 	if _, ok := a.V.(nilV); ok {
 		a, b = b, a
 	}
@@ -959,7 +968,11 @@ func (e *Env) call(n *ast.CallExpr) tv {
 		if !ok1 || !ok2 {
 			evalFail("errIs expects two error values")
 		}
-		return tv{e.eng.errIs(e.h(), a, b, 3), nil}
+		return tv{e.eng.errIs(e.h(), a, b, 3, func(f *Term) {
+			if e.quant == 0 && e.facts != nil {
+				*e.facts = append(*e.facts, f)
+			}
+		}), nil}
 	case "isPathError":
 		a, ok := arg(0).V.(IfaceV)
 		if !ok {
